@@ -11,8 +11,8 @@ M = "vlib.harness.h_prog"
 TABLES = [("space", "semantic_p3/s2space_p3.bundle*"), ("status", "semantic_p3/stmt_status_p3.bundle*")]
 
 
-def family():
-    return [p for p in progs.family_val() if p.get("exact")] + progs.family_val_ctl(3)
+def family(tier="thorough"):
+    return [p for p in progs.family_val() if p.get("exact")] + progs.family_val_ctl(3 if tier == "quick" else 4)
 
 
 def run(tier):
@@ -28,7 +28,7 @@ def run(tier):
         "programs call f(inp(0), inp(1), inp(2)); at most 5 branch decisions per path",
     ]
     r.outside += ["loops", "more than one allocation per variable", "containers (element sets are merged by design)"]
-    programs = family()
+    programs = family(tier)
     batch, info = tbatch.build_batch(programs, cmd="semantic", tables=TABLES)
     r.extra["lian_run"] = {k: info[k] for k in ("rc", "wall_s", "cmd")}
     if info["rc"] != 0:
